@@ -4,9 +4,12 @@
 (* It executes the bytecode emitted by the REAL compiler (read from ProgramsFile),   *)
 (* statement by statement, and reports value / output / error / residue: comparing  *)
 (* its observations with CalcSem's is translation validation of the compiler.  If a *)
-(* program carries the per-instruction trace (ip, sp, frames, closures) recorded    *)
-(* from the real VM, each step must be exactly the recorded one (VMDIVERGE names    *)
-(* the first instruction where the real machine cannot be followed).                *)
+(* program carries the per-instruction trace recorded from the real VM (ip, sp,     *)
+(* frames, closures, and signatures of the temp register and of the stack top), each *)
+(* step must be exactly the recorded one, the temp register must hold the specified  *)
+(* value whenever an instruction reads it and a stack operand must be the specified  *)
+(* value whenever an instruction pops one (VMDIVERGE names the first instruction     *)
+(* where the real machine cannot be followed, and in which respect).                 *)
 EXTENDS CalcValues, TLC, Json
 CONSTANTS ProgramsFile, MaxSteps
 Programs == ndJsonDeserialize(ProgramsFile)
@@ -210,6 +213,19 @@ StepFn(m) ==
     [] op = "READ" -> RaiseR("read", "read")
     [] OTHER -> Stuck("opcode " \o op)
 
+\* value signatures, as the harness computes them for the recorded events (valSig in common.go)
+RECURSIVE JoinS(_)
+JoinS(cs) == IF Len(cs) = 0 THEN "" ELSE cs[1] \o JoinS(Tail(cs))
+Sig(v) == CASE v.k = "nil" -> "n" [] v.k = "int" -> "i" \o ToString(v.v) [] v.k = "bigint" -> "i" \o JoinS(v.txt)
+            [] v.k = "bool" -> (IF v.v THEN "bt" ELSE "bf") [] v.k = "str" -> "s" \o ToString(Len(v.v))
+            [] v.k = "arr" -> "a" \o ToString(Len(v.v)) [] v.k = "fn" -> "f" [] OTHER -> "x"
+\* instructions that read the temp register / whose first operand fetch may pop the stack
+ReadsTmp(i) == (i.op \in BinOps \cup UnOps /\ i.t) \/ (i.op = "PUSH" /\ i.t) \/ (i.op = "MOV" /\ i.k0 = "tmp")
+PopsFirst(i) == /\ i.k0 = "stck"
+                /\ \/ i.op \in BinOps
+                   \/ (i.op \in UnOps /\ ~i.t) \/ (i.op = "PUSH" /\ ~i.t)
+                   \/ i.op \in {"MOV", "INC", "JMPF", "JMPT", "IX1", "IX2", "ARR", "FUNC", "CALL", "RET", "YIELD", "WRITE", "TOA", "ATON"}
+
 \* residue as the real accessors would see it on the main context
 SpOf(c) == Len(c.ops) + (IF Len(c.frames) = 0 THEN 0 ELSE
              LET RECURSIVE Sum(_) Sum(j) == IF j = 0 THEN 0 ELSE c.frames[j].locals + 1 + Sum(j - 1) IN Sum(Len(c.frames)))
@@ -245,9 +261,18 @@ Step ==
               mine == <<C.ip, SpOf(C), Len(C.frames), Len(C.clos)>>
               hasTr == "trace" \in DOMAIN Programs[pi]
               ev == IF hasTr /\ tk + 1 <= Len(Programs[pi].trace[si]) THEN Programs[pi].trace[si][tk + 1] ELSE <<>>
+              \* an event is <<ip, sp, frames, closures, signature of the temp register, signature of the stack top>>
+              what == IF ~hasTr THEN ""
+                      ELSE IF Len(ev) < 4 THEN "trace ended"
+                      ELSE IF <<ev[1], ev[2], ev[3], ev[4]>> # mine THEN "state"
+                      ELSE IF Len(ev) >= 5 /\ ReadsTmp(Ins) /\ ev[5] # Sig(tmp) THEN "temp register"
+                      ELSE IF Len(ev) >= 6 /\ PopsFirst(Ins) /\ Len(C.ops) > 0 /\ ev[6] # Sig(Last(C.ops)) THEN "operand"
+                      ELSE ""
+              shown == IF what = "temp register" THEN Sig(tmp) ELSE IF what = "operand" THEN Sig(Last(C.ops)) ELSE ""
           IN
-          IF hasTr /\ ev # mine THEN
-               /\ PrintT("VMDIVERGE " \o ToJson([id |-> Programs[pi].id, stmt |-> si, step |-> tk + 1, spec |-> mine, real |-> ev, op |-> Ins.op]))
+          IF what # "" THEN
+               /\ PrintT("VMDIVERGE " \o ToJson([id |-> Programs[pi].id, stmt |-> si, step |-> tk + 1, what |-> what, spec |-> mine, specval |-> shown,
+                                                 real |-> ev, op |-> Ins.op]))
                /\ status' = "done" /\ UNCHANGED <<si, ctxs, cur, heap, globals, out, tmp, obs, tk>>
           ELSE IF "m" \in DOMAIN r THEN Set(r.m) /\ tk' = tk + 1 /\ UNCHANGED <<si, obs, status>>
           ELSE IF "raise" \in DOMAIN r THEN NextStmt([err |-> r.raise, alt |-> r.alt, out |-> out, ip |-> C.ip]) /\ UNCHANGED <<heap, globals, tmp>>
